@@ -245,13 +245,14 @@ class Renderer:
         self.erase = erase
 
     def tag(self, n):
+        anchor = ('&' + n['anchor']) if n.get('anchor') else ''
         if self.erase:
-            return ''
-        return tag_text(n)
+            return anchor
+        return ' '.join(x for x in (anchor, tag_text(n)) if x)
 
     def is_inline(self, n):
         t = n['t']
-        if t in ('sc', 'empty', 'raw'):
+        if t in ('sc', 'empty', 'raw', 'alias'):
             return True
         if not n['items']:
             return True
@@ -265,6 +266,8 @@ class Renderer:
             return scalar_text(n['v'], n.get('q', 'plain'))
         if t == 'empty':
             return ''
+        if t == 'alias':
+            return '*' + n['name']
         if t == 'raw':
             return self.raw_text(n)
         if t == 'map':
@@ -357,6 +360,8 @@ def plain(n):
         return None
     if t == 'raw':
         return n['text']
+    if t == 'alias':
+        return None
     raise HarnessError(t)
 
 
